@@ -142,3 +142,11 @@ claim("C15", "DESIGN.md 5/C15",
       "the string choice (exact, last partial modulo 100000 with warning and dump, none with notice and dump, binary "
       "entries) for all 32-bit hashes against a synthetic string file, and against two different files in one process; "
       "argument extraction for 0..5 words with %-mismatch fall-back; inputs shorter than a header are dumped losslessly.")
+
+claim("C17", "DESIGN.md 5/C17",
+      "parse_dump_data is executed on 9 catalogue layouts in which the 4 start bytes of up to two candidate headers are "
+      "symbolic, with the stand-alone decoders replaced by recorders: the recorded slices must be exactly the partition "
+      "given by an independent 'first occurrence of start + name' oracle (ILOG first, trace regions in address order, "
+      "every byte once) with the headings / dividers of the stand-alone formatters; parse_dump_file on renderings of "
+      "23..180 byte dumps in both hex formats (either digit case, cut / padded last line, last byte symbolic) must "
+      "hand over the same slices as the raw bytes; empty input gives no output. 42 cases, each 'Confirmed over all paths'.")
